@@ -1458,7 +1458,11 @@ MANIFEST = dict(
     '(under ==); value/representation kinds other than integers (float '
     'arrays, None/str/bool/numpy scalars, kinds of the stop decision, of '
     'rep_max and of the index) are concrete or structural variants, not '
-    'solver variables',
+    'solver variables'
+    ' Concrete data-representation / scale / boundary probes of the real'
+    ' code (dtype, container and memory-layout variants, argument'
+    ' immutability, magnitudes) accompany the symbolic runs; they are'
+    ' differential runs, not solver verdicts.',
     technique='symbolic execution of the real runner loop (path forking on '
     'symbolic Bool/Int) + z3 LIA obligations against a reference interpreter; '
     'counterexample replay on the real class with the model\'s skip/stop '
